@@ -833,14 +833,17 @@ class TaskEventsManager():
             ):
                 self.spawn_children(itask, TASK_OUTPUT_FAILED, forced)
 
-        elif message == self.EVENT_SUBMIT_FAILED:
+        elif message == self.EVENT_SUBMIT_FAILED or (
+            # `cylc set --out=submit-failed` gives the output message
+            forced and message == TASK_OUTPUT_SUBMIT_FAILED
+        ):
             if flag == self.FLAG_RECEIVED and itask.state.is_gt(
                 TASK_STATUS_SUBMIT_FAILED
             ):
                 # Already submit-failed
                 return True
-            if forced or self._process_message_submit_failed(
-                itask, event_time
+            if self._process_message_submit_failed(
+                itask, event_time, forced
             ):
                 self.spawn_children(itask, TASK_OUTPUT_SUBMIT_FAILED, forced)
 
@@ -1525,7 +1528,7 @@ class TaskEventsManager():
         })
 
     def _process_message_submit_failed(
-        self, itask: 'TaskProxy', event_time: str
+        self, itask: 'TaskProxy', event_time: str, forced: bool = False
     ) -> bool:
         """Helper for process_message, handle a submit-failed message.
 
@@ -1534,13 +1537,14 @@ class TaskEventsManager():
         no_retries = False
         LOG.error(f"[{itask}] {self.EVENT_SUBMIT_FAILED}")
         if (
-            TimerFlags.SUBMISSION_RETRY not in itask.try_timers
+            forced
+            or TimerFlags.SUBMISSION_RETRY not in itask.try_timers
             or itask.try_timers[TimerFlags.SUBMISSION_RETRY].next() is None
         ):
             # No submission retry lined up: definitive failure.
             # See github #476.
             no_retries = True
-            if itask.state_reset(TASK_STATUS_SUBMIT_FAILED):
+            if itask.state_reset(TASK_STATUS_SUBMIT_FAILED, forced=forced):
                 if itask.removed:
                     # Need to update DB as task not include in pool update
                     self.workflow_db_mgr.put_update_task_state(itask)
@@ -1564,7 +1568,9 @@ class TaskEventsManager():
             msg = f"job {self.EVENT_SUBMIT_FAILED}, {delay_msg}"
             self.setup_event_handlers(itask, self.EVENT_SUBMIT_RETRY, msg)
 
-        self._process_job_submit_failed(itask, event_time)
+        if not forced:
+            # (no job to record if the output was set manually)
+            self._process_job_submit_failed(itask, event_time)
         self._reset_job_timers(itask)
 
         return no_retries
